@@ -70,6 +70,9 @@ def _built_shape(ch):
     if k == "Path":
         spec["d"] = gp.render(gp.gen_cmds(ch, ch.int(2, 6), mag=100.0, allow_zc=False, arc_zero=False), 0)
         spec["d_kw"] = ch.coin(0.4)
+    if k in ("Rect", "Circle", "Ellipse") and ch.coin(0.05):
+        # a size of zero: the shape renders nothing, and must not come back as a shape of default size
+        spec["pos"][ch.int(0, 1)] = 0
     if ch.coin(0.08):
         # magnitudes that leave the plain decimal spelling (below 1e-4, from 1e12): exponent forms in the written numbers
         f = ch.choice([1e-10, 1e-20, 1e-7, 1e12])
@@ -114,6 +117,33 @@ def generate(seed, index, tier):
             "buffer": ch.choice([None, 1, 16, 8192]),
         })
     case["gens"] = gens
+    # the tree is edited through its objects between building/parsing and writing (ids, paint, transforms,
+    # geometry, the svg's own size and viewBox): what is written must follow the objects, not their source text
+    touch = []
+    if index % 4 in (1, 3):
+        for _ in range(ch.int(1, 4)):
+            k = ch.weighted([("id", 3), ("fill", 2), ("stroke", 2), ("sw", 2), ("imul", 3), ("reify", 1), ("attr", 2), ("svg_size", 2), ("svg_viewbox", 2), ("append", 1), ("clear_id", 1)])
+            if k == "id":
+                touch.append(["id", ch.int(0, 20), "t%d" % ch.int(0, 999)])
+            elif k == "clear_id":
+                touch.append(["id", ch.int(0, 20), None])
+            elif k in ("fill", "stroke"):
+                touch.append([k, ch.int(0, 20), ch.choice(FILLS)])
+            elif k == "sw":
+                touch.append(["sw", ch.int(0, 20), ch.choice([1.0, 0.5, 2.0, 3.25, 1])])
+            elif k == "imul":
+                touch.append(["imul", ch.int(0, 20), ch.choice([t for t in TRS if t])])
+            elif k == "reify":
+                touch.append(["reify", ch.int(0, 20)])
+            elif k == "attr":
+                touch.append(["attr", ch.int(0, 20), _n(ch)])
+            elif k == "svg_size":
+                touch.append(["svg_size", ch.choice([100, 200, 640, 50.5]), ch.choice([100, 480, 75])])
+            elif k == "svg_viewbox":
+                touch.append(["svg_viewbox", ch.choice([None, "0 0 100 100", "0 0 50 200", "-10 -10 300 300"])])
+            else:
+                touch.append(["append", _built_shape(ch)])
+    case["touch"] = touch
     f = index % 8
     fault = {"kind": "none"}
     if f == 5:
@@ -191,6 +221,65 @@ def build_tree(se, tree):
 # --------------------------------------------------------------------------
 # one write -> freeze -> read
 # --------------------------------------------------------------------------
+
+
+def apply_touch(se, svg, ops, out=None):
+    """Edits of the tree through its objects. Returns the number applied."""
+    n = 0
+
+    def disabled():
+        # a root of zero size renders nothing (the reader drops its content): what is appended to it, or how its
+        # viewport is re-stated, is not a "rendered shape" of the property; such roots keep only per-shape edits
+        try:
+            vb = svg.viewbox
+            return svg.width == 0 or svg.height == 0 or (vb is not None and (vb.width == 0 or vb.height == 0))
+        except Exception:
+            return True
+
+    for op in ops:
+        shapes = [e for e in svg.elements() if isinstance(e, se.Shape)]
+        name = op[0]
+        if name in ("svg_size", "svg_viewbox", "append") and disabled():
+            if out is not None:
+                out.count("skip:touch-on-disabled-root")
+            continue
+        try:
+            if name in ("id", "fill", "stroke", "sw", "imul", "reify", "attr"):
+                if not shapes:
+                    continue
+                e = shapes[op[1] % len(shapes)]
+                if name == "id":
+                    e.id = op[2]
+                elif name == "fill":
+                    e.fill = se.Color(op[2])
+                elif name == "stroke":
+                    e.stroke = se.Color(op[2])
+                elif name == "sw":
+                    e.stroke_width = op[2]
+                elif name == "imul":
+                    e *= op[2]
+                elif name == "reify":
+                    e.reify()
+                else:
+                    for a in ("x", "cx", "x1"):
+                        if hasattr(e, a) and isinstance(getattr(e, a), (int, float)):
+                            setattr(e, a, op[2])
+                            break
+                    else:
+                        continue
+            elif name == "svg_size":
+                svg.width, svg.height = op[1], op[2]
+            elif name == "svg_viewbox":
+                svg.viewbox = se.Viewbox(op[1]) if op[1] else None
+            elif name == "append":
+                svg.append(_build_shape(se, op[1]))
+            n += 1
+            if out is not None:
+                out.count("op:touch-" + name)
+        except Exception:
+            if out is not None:
+                out.count("skip:touch-raises")
+    return n
 
 
 def _viewport_scale(se, svg):
@@ -338,8 +427,17 @@ def _first_diff(a, b):
     return a[max(0, i - 40) : i + 40], b[max(0, i - 40) : i + 40]
 
 
+def _zero_size(se, e):
+    if isinstance(e, se.Rect):
+        return e.width == 0 or e.height == 0
+    if isinstance(e, (se.Circle, se.Ellipse)):
+        return e.rx == 0 or e.ry == 0
+    return False
+
+
 def _shapes(se, svg):
-    return [r for r in ob.observe_doc(se, svg, keep_path=True, rendered_stroke=True) if "geom" in r]
+    # rendered shapes: a rect or ellipse of zero size is not one (SVG: "a value of zero disables rendering")
+    return [r for r in ob.observe_doc(se, svg, keep_path=True, rendered_stroke=True) if "geom" in r and not _zero_size(se, r.get("_elem"))]
 
 
 def _six_digit_arc(se, x, i):
@@ -359,7 +457,9 @@ def _six_digit_arc(se, x, i):
 
 
 def compare_generations(se, a, b, tol, V, tag, what):
-    if [r["n"] for r in a] != [r["n"] for r in b] or len(a) != len(b):
+    # serials identify elements of generated documents; elements built or appended through the API have none (and a
+    # reader hands them an enclosing element's): only where both sides have their own serial is it compared
+    if len(a) != len(b) or any(x["n"] != y["n"] for x, y in zip(a, b) if x["n"] is not None and x.get("own_n") and y.get("own_n")):
         raise V(tag, ["sequence"], "%s: shapes differ in number/order: %s then %s" % (what, [(r["n"], r["cls"]) for r in a], [(r["n"], r["cls"]) for r in b]))
     for x, y in zip(a, b):
         for k in ("fill", "stroke", "id"):
@@ -407,6 +507,8 @@ def execute(case, se, out, trace):
     if not isinstance(svg, se.SVG):
         out.count("skip:root-not-svg")
         return
+    if case.get("touch"):
+        apply_touch(se, svg, case["touch"], out)
     cur = svg
     cur_obs = _shapes(se, cur)
     if any(r["geom"] and r["geom"][0][0] == "error" for r in cur_obs):
@@ -437,6 +539,8 @@ def execute(case, se, out, trace):
             twin = sp.SVG.parse(io.StringIO(xml), reify=case["reify"], ppi=case["ppi"])
         else:
             twin = build_tree(sp, case["tree"])
+        if case.get("touch") and isinstance(twin, sp.SVG):
+            apply_touch(sp, twin, case["touch"])
         t3 = twin.string_xml()
     except Exception as e:
         if core.is_harness_exc(e):
@@ -522,6 +626,10 @@ def shrink(case):
     if case["fault"]["kind"] != "none":
         c = _copy.deepcopy(case)
         c["fault"] = {"kind": "none"}
+        yield c
+    for cand in core.ddmin_list(case.get("touch") or []):
+        c = _copy.deepcopy(case)
+        c["touch"] = cand
         yield c
     if case["source"] == "doc":
         doc = case["doc"]
